@@ -94,6 +94,14 @@ let handle (cmd : string) (rest : string) : string =
         | ServeConn i -> Printf.sprintf "serve:%d" (int_of_nat i)
         | CloseLate i -> Printf.sprintf "late:%d" (int_of_nat i) in
       String.concat "," (List.map show_act acts) ^ "|" ^ (match res with ARNil -> "nil" | ARErr -> "err" | ARRunning -> "running")
+  | "clientlife" ->
+      (* clientlife <ops>: cG connect to a good peer; cP cU cD connect fails (plain TCP / untrusted certificate / refused);
+         x close; s send   -> one outcome per op *)
+      let op t = (match t with
+        | "cG" -> CConnect Connects | "cP" | "cU" | "cD" -> CConnect DialFails
+        | "x" -> CClose | "s" -> CSend | _ -> failwith "clientlife op") in
+      let outs = clife_run clife0 (List.map op (split_on ' ' (String.trim rest))) in
+      String.concat " " (List.map (function LOk -> "ok" | LErr -> "err" | LExchange -> "exchange" | LPanic -> "panic") outs)
   | "client" | "clientdv" ->
       (* client conn=1 rt=0 wt=1 ver=1.4 op=<hex> | <payload val or offer> | <reply hex> *)
       (match String.split_on_char '|' rest with
